@@ -121,6 +121,7 @@ class Gen:
         self.mod_uses = {}
         self.mod_pre = {}
         self.miss_done = not (rng.random() < self.p["miss"])
+        self.miss_case = not self.miss_done      # a case with a budgeted near-miss (want_miss); the opportunistic ones stay out of it
 
     # -- helpers ---------------------------------------------------------------------------------
     def r(self, lo_hi):
@@ -132,6 +133,11 @@ class Gen:
     def fresh(self, prefix):
         self.uid += 1
         return "%s%d" % (prefix, self.uid)
+
+    def opportunistic(self):
+        """may a near-miss that is drawn at its own small rate (not through want_miss) fire here?  Only in cases without
+        a budgeted near-miss, and only one per case"""
+        return self.p["miss"] > 0 and self.expect["miss"] is None and not self.miss_case
 
     def want_miss(self):
         if self.miss_done:
@@ -353,7 +359,7 @@ class Gen:
             text = "#[size(%d), align(%d)]\nextern type %s;" % (size, align, name)
         else:
             text = "#[align(%d)]\n#[size(%s)]\nextern type %s;" % (align, int_lit(self.rng, size), name)
-        if self.p["miss"] > 0 and self.expect["miss"] is None and self.rng.random() < 0.06:
+        if self.opportunistic() and self.rng.random() < 0.03:
             # functions can only be attached to a type the module defines
             text += "\nimpl %s {\n    #[address(0x%x)]\n    pub fn xm%d(&self) -> u32;\n}" % (name, 0x1000 + self.uid, self.uid)
             self.expect["miss"] = "impl block on an extern type"
@@ -488,7 +494,7 @@ class Gen:
         if inherit:
             real = [i for i, d in enumerate(inherit) if d is not None]
             mutate_at = None
-            pre_short = bool(real) and inherit[-1] is None and self.expect["miss"] is None and \
+            pre_short = bool(real) and inherit[-1] is None and self.expect["miss"] is None and not self.miss_case and \
                 rng.random() < max(0.06, 0.4 * self.p.get("p_slot_mut", 0.0))
             if pre_short:
                 self.miss_done = True
@@ -498,7 +504,7 @@ class Gen:
             drop_tail = bool(real) and mutate_at is None and not pre_short and self.want_miss()
             shift_at = None
             shiftable = [i for i in real if i > 0 and inherit[i - 1] is None]
-            if shiftable and mutate_at is None and not pre_short and not drop_tail and self.expect["miss"] is None and self.p["miss"] > 0 \
+            if shiftable and mutate_at is None and not pre_short and not drop_tail and self.opportunistic() \
                     and rng.random() < max(0.08, 0.3 * self.p.get("p_slot_mut", 0.0)):
                 # the right functions in the right order, one of them a slot earlier than in the base's table
                 shift_at = rng.choice(shiftable)
@@ -552,7 +558,7 @@ class Gen:
         if slots and not short_pad and (rng.random() < 0.25 or len(slots) != emit_pos):
             total = len(slots) + rng.choice([0, 0, 1, 3])
             nfuncs = len(texts)
-            if emit_pos > 1 and (self.want_miss() or (self.p["miss"] > 0 and self.expect["miss"] is None
+            if emit_pos > 1 and (self.want_miss() or (self.opportunistic()
                                                      and rng.random() < self.p["p_vft_size_miss"])):
                 # below the occupied slots -- and, when index gaps allow it, not below the number of declared functions
                 total = rng.randint(nfuncs, emit_pos - 1) if nfuncs <= emit_pos - 1 else emit_pos - 1
@@ -653,12 +659,19 @@ class Gen:
             if off - natural > 32:
                 all_default = False      # derive(Default) exists for arrays of at most 32 elements (documented fragment)
             nonlocal miss_here
-            if size == 0 and not zero_array and a > 1 and natural > 0 and self.p["miss"] > 0 and miss_here is None \
-                    and self.expect["miss"] is None and rng.random() < self.p["p_zst_miss"]:
+            if size == 0 and not zero_array and a > 1 and natural > 0 and miss_here is None \
+                    and self.opportunistic() and rng.random() < self.p["p_zst_miss"]:
                 # a zero-sized member still has an alignment: rustc pads in front of it
                 off = natural + (a - natural % a) % a + 1
                 explicit = True
                 miss_here = "zero-sized field off alignment by one"
+                self.miss_done = True
+            elif natural > 0 and not packed and align > 1 and miss_here is None and not (zero_array and size == 0) \
+                    and self.opportunistic() and rng.random() < (0.05 if zero_array else 0.012):
+                # (zero_array marks every array-typed member) the alignment of an array is that of its elements
+                off = natural + (a - natural % a) % a + 1
+                explicit = True
+                miss_here = "address off alignment by one"
                 self.miss_done = True
             elif self.want_miss() and natural > 0:
                 k = rng.random()
@@ -763,10 +776,18 @@ class Gen:
             total = total + extra
             size_attr = total
         if align_attr is not None and not packed and nregions != 1 and max_align > ptr and miss_here is None \
-                and self.p["miss"] > 0 and self.expect["miss"] is None and rng.random() < 0.05:
+                and self.opportunistic() and rng.random() < 0.03:
             # without the attribute the alignment is the pointer size: below what a member needs
             align_attr = None
             miss_here = "default alignment below a member's alignment"
+            self.miss_done = True
+        elif miss_here is None and self.opportunistic() and not packed and (eff_align or 1) > 1 and natural_end > 0 and rng.random() < 0.03:
+            if rng.random() < 0.7:
+                size_attr = total + rng.randint(1, eff_align - 1)
+                miss_here = "size not a multiple of the alignment"
+            else:
+                size_attr = natural_end - 1
+                miss_here = "size one too small"
             self.miss_done = True
         elif self.want_miss():
             k = rng.random()
@@ -829,7 +850,7 @@ class Gen:
                 if others and rng.random() < self.p["p_fn_name_reuse"]:
                     fname = rng.choice(others)
                 own_vf = [d_["name"] for d_ in (vslots or []) if d_ and declare_vft]
-                if own_vf and self.p["miss"] > 0 and self.expect["miss"] is None and miss_here is None and rng.random() < 0.012:
+                if own_vf and self.opportunistic() and miss_here is None and rng.random() < 0.012:
                     fname = rng.choice(own_vf)       # a name one of the type's own virtual functions (public or private) has
                     miss_here = "impl function named like a virtual function of the type"
                     self.miss_done = True
